@@ -74,6 +74,38 @@ fn case_strategy(max_msgs: usize, max_size: u32) -> impl Strategy<Value = Case> 
     (workload_strategy(max_msgs, max_size), net_strategy()).prop_map(|(w, n)| Case { w, n })
 }
 
+fn tail_gap_strategy() -> impl Strategy<Value = Case> {
+    (
+        side_strategy(),
+        prop_oneof![10..60usize, 60..140usize, 140..320usize],
+        prop_oneof![Just(1u32), 100..700u32, Just(1172u32), 1173..3000u32],
+        0..6u16,
+        prop_oneof![
+            Just(Action::Drop),
+            (20..200u8, 50..400u16).prop_map(|(count, max_ms)| Action::HoldBack { count, max_ms }),
+            (100..500u16).prop_map(|ms| Action::Delay { ms }),
+        ],
+        prop::collection::vec(data_rule(40), 0..3),
+        tsn_strategy(),
+    )
+        .prop_map(|(side, n, size, ordinal, action, extra, tsn)| {
+            let sends = (0..n)
+                .map(|_| SendOp { side, chan: 0, task: 0, size, gap_ms: 0 })
+                .collect();
+            let mut rules = vec![Rule { from: side, class: SClass::Data, ordinal, action }];
+            rules.extend(extra);
+            Case {
+                w: Workload { chans: vec![chan(100)], sends },
+                n: NetSpec {
+                    rules,
+                    tsn_a: tsn,
+                    tsn_b: tsn,
+                    ..NetSpec::default_fast()
+                },
+            }
+        })
+}
+
 fn stall_signature(c: &Case, fired: &[bool]) -> String {
     let mut setup: Vec<String> = c
         .n
@@ -196,6 +228,22 @@ pub fn judge(c: &Case, r: &RunResult, rec: &CaseRec) -> Check {
     if !closed && (!r.senders_done || !r.complete) {
         let sig = stall_signature(c, &r.rules_fired);
         let delivered = r.events.iter().filter(|e| matches!(e.kind, EvKind::Msg(_))).count();
+        if quiescent_stall(r, std::time::Duration::from_secs(5)) {
+            // nothing but heartbeats for >= 12 RTO-max: a definitive stall, not slowness
+            return Err(Fail::new(
+                format!("{}:quiescent", sig),
+                format!(
+                    "no closure reported, only {}/{} messages delivered (senders_done={}) and the association has been silent (heartbeats only) for {:.1}s; A: {} | B: {}; trace: {}",
+                    delivered,
+                    c.w.sends.len(),
+                    r.senders_done,
+                    r.end_us.saturating_sub(last_activity_us(&r.trace)) as f64 / 1e6,
+                    r.diag[0],
+                    r.diag[1],
+                    describe_trace(&r.trace, 40)
+                ),
+            ));
+        }
         return Err(Fail::timing(
             sig,
             format!(
@@ -344,6 +392,10 @@ pub fn run(ctx: &mut Ctx) {
 
     let n = ctx.scale(2500usize, 30_000usize);
     ctx.sub_async(&rt, "faulted-workload", n, 48, case_strategy(24, 16 * 1024), checker(limits));
+    // deep out-of-order queue at the very end of a workload: one early packet is lost / held back,
+    // everything else arrives, nothing is submitted afterwards (recovery must not depend on new DATA)
+    let n_tail = ctx.scale(300usize, 4000usize);
+    ctx.sub_async(&rt, "tail-gap", n_tail, 32, tail_gap_strategy(), checker(limits));
     let n_big = ctx.scale(60usize, 600usize);
     ctx.sub_async(&rt, "large-workload", n_big, 12, case_strategy(240, 16 * 1024), checker(limits));
     rt.shutdown_timeout(std::time::Duration::from_secs(2));
